@@ -8,7 +8,7 @@ from proto import T
 RULE = ('for random valid tables (single- and multi-word keys, aliases, parentheses in aliases, names containing and/or/with): '
         'every name of the table in a random case / Unicode-blank variant, placed bare, on either side of AND / OR / WITH, and in '
         'parentheses, next to an unknown word; cases where a longer known name extends beyond the operand are generated too and '
-        'counted apart (the proviso of the property); one case in eight over a table whose names nest as suffixes of one another through an operator word (gnu gpl-2.0 or later / gpl-2.0 or later / or later, in any order of insertion) with the stem (gnu gpl-2.0) a complete operand followed by that operator word. Spec: the operand resolves to the entry\'s symbol and the rendering shows '
+        'counted apart (the proviso of the property); one case in eight over a table whose names nest as suffixes of one another through an operator word (gnu gpl-2.0 or later / gpl-2.0 or later / or later, in any order of insertion) with the stem (gnu gpl-2.0) a complete operand followed by that operator word. Spec (for a one-word key also with the simple tokenizer): the operand resolves to the entry\'s symbol and the rendering shows '
         'the canonical key; operator words inside longer words are not operators. Correspondence: tree and rendering with the model. '
         'non-trivial = the variant differs from the stored spelling; distinct by (table, text)')
 ASSUMPTIONS = ['cases where another known name overlaps the operand and extends beyond it are outside the claim (counted, compared with the model only)']
@@ -76,7 +76,7 @@ class Prop(BaseProp):
             text, exp = '(' + (sp() if rng.random() < 0.5 else '') + v + (sp() if rng.random() < 0.5 else '') + ')', [T('sym')] + me
         else:
             text, exp = other + sp() + kw('and') + sp() + '(' + v + ')', [T('and'), [T('sym')] + ot, [T('sym')] + me]
-        return {'table': table, 'text': text, 'expected': exp, 'operand': v, 'ctx': ctx, 'variant_differs': v != nm}
+        return {'table': table, 'text': text, 'expected': exp, 'operand': v, 'ctx': ctx, 'variant_differs': v != nm, 'key': k}
 
     def proviso(self, table, text, operand):
         """True when no known name overlaps the operand and extends beyond it, and no other entry has the same words"""
@@ -126,6 +126,13 @@ class Prop(BaseProp):
             wr = drv.call(T('render'), case['expected'])
             if rend != wr:
                 return Verdict('spec', case, 'rendering does not show the canonical key', impl=rend, model=wr, tags=tags)
+            # a key of one word is recognised in any letter case by the simple tokenizer too
+            k = case.get('key')
+            if k and len(k.split()) == 1 and case['operand'].lower() == k.lower() and '(' not in k and ')' not in k:
+                i2 = impl.parse_c(lic, text, simple=True)
+                if i2 != want:
+                    return Verdict('spec', case, 'the simple tokenizer does not resolve a one-word key written in another letter case', impl=i2, model=want, tags=tags)
+                tags.append('simple-too')
         a = ip if P.is_ok(ip) else P.err_class(ip)
         b = mp if P.is_ok(mp) else P.err_class(mp)
         if a != b:
